@@ -149,6 +149,12 @@ def _solve_one(i):
         s = z3.Solver()
         for h in ob.formula():
             s.add(h)
+        # cvc5 first: several obligations are out of z3's reach with every seed and take cvc5 a second or two of CPU -- its time
+        # limit is WALL time, so under load it needs a generous one
+        r2, d2 = run_cvc5(s.to_smt2(), 120)
+        if r2 == "unsat":
+            return (i, "unsat", time.time() - t0, "cvc5", "second pass", None)
+        notes = ["cvc5(120s): %s %s" % (r2, d2)]
         for seed in (42, 2, 3, 0, 7, 11):
             s.set("random_seed", seed)
             s.set("timeout", 20000)
@@ -158,10 +164,11 @@ def _solve_one(i):
                 r = z3.unknown
             if r != z3.unknown:
                 return (i, str(r), time.time() - t0, "z3", "second pass, seed %d" % seed, None)
-        r2, d2 = run_cvc5(s.to_smt2(), 60)
+        r2, d2 = run_cvc5(s.to_smt2(), 180)
         if r2 == "unsat":
-            return (i, "unsat", time.time() - t0, "cvc5", d2, None)
-        return (i, "unknown", time.time() - t0, "z3", "timeout in both passes", None)
+            return (i, "unsat", time.time() - t0, "cvc5", "second pass (second attempt)", None)
+        notes.append("cvc5(180s): %s %s" % (r2, d2))
+        return (i, "unknown", time.time() - t0, "z3", "timeout in both passes; " + "; ".join(notes), None)
     s = z3.Solver()
     first = min(timeout_ms, 3000) if (ob.expect_sat or _CFG.get("cvc5", True)) else timeout_ms
     s.set("timeout", first)
@@ -176,7 +183,7 @@ def _solve_one(i):
         return (i, "error", time.time() - t0, "z3", str(e), None)
     if r == z3.unknown and not ob.expect_sat and _CFG.get("cvc5", True):
         # an early, short cvc5 attempt: it decides many of z3's unknowns in well under a second
-        r2, d2 = run_cvc5(s.to_smt2(), 8)
+        r2, d2 = run_cvc5(s.to_smt2(), 12)
         if r2 == "unsat":
             return (i, "unsat", time.time() - t0, "cvc5", d2, None)
     if r == z3.unknown and not ob.expect_sat and _CFG.get("cvc5", True):
